@@ -1,1 +1,383 @@
-/- C17 — theorems (placeholder until the property is built). -/
+/-
+  C17 — Malformed inputs are refused up front; well-formed inputs never are.
+
+  Theorems about the executable model `Model/Config.lean` (`checkDataset(s)`, the schema entries and
+  the custom checks of `checkInputSection`, with the schemas the translator regenerated from
+  `pandora/check_configuration.py`) and the hand-written specification `Model/InputSpec.lean`.
+
+    1. `check_datasets` accepts a pair iff it is well-formed (every requirement by sub-identifier);
+       which exception class a refusal carries
+    2. the schema entries of the input section against the documented forms, for ALL values
+    3. `check_disparities_from_input` / `check_images`: accepted iff the documented conditions
+    4. findings (counterexamples) and non-vacuity examples
+-/
+import PandoraModel.Model.InputSpec
+import PandoraModel.Generated.Schemas
+
+namespace Pandora.C17
+open Pandora Pandora.Config Pandora.ConfigSpec Pandora.InputSpec
+
+/-! ### 1. Datasets -/
+
+/-- the requirements on one dataset as one conjunction -/
+def featuresOk (isLeft : Bool) (f : DsFeatures) : Bool :=
+  f.hasIm && !f.allNan && f.bandNamesStr && f.sameGrid && f.attrs && (!isLeft || f.hasDisp) &&
+  (!f.hasDisp || f.dispBands) && (!f.hasDisp || !f.minGtMax)
+
+theorem datasetClauses_all (isLeft : Bool) (d : DsDesc) :
+    (datasetClauses isLeft d).all (·.2) = featuresOk isLeft d.features := by
+  simp [datasetClauses, featuresOk, Bool.and_assoc]
+
+/-- the sequence of tests of `check_dataset` accepts exactly the conjunction of the requirements
+    (a disparity is not mandatory at this level) -/
+theorem checkFeatures_ok_iff (f : DsFeatures) :
+    checkFeatures f = .ok () ↔ featuresOk false f = true := by
+  obtain ⟨a, b, c, d, e, g, h, i⟩ := f
+  cases a <;> cases b <;> cases c <;> cases d <;> cases e <;> cases g <;> cases h <;> cases i <;>
+    simp [checkFeatures, featuresOk]
+
+theorem checkDataset_ok_iff (d : DsDesc) :
+    checkDataset d = .ok () ↔ (datasetClauses false d).all (·.2) = true := by
+  rw [datasetClauses_all]; exact checkFeatures_ok_iff d.features
+
+/-- a refusal of `check_dataset` is one of three exception classes, each naming a group of
+    requirements: `TypeError` ⇒ band names; `ValueError` ⇒ all-NaN image or a variable off the image
+    grid; `AttributeError` ⇒ image / disparity bands / min ≤ max / attributes -/
+theorem checkFeatures_error_class (f : DsFeatures) (e : Err) (h : checkFeatures f = .error e) :
+    (e = .type ∧ f.bandNamesStr = false) ∨
+    (e = .value ∧ (f.allNan = true ∨ f.sameGrid = false)) ∨
+    (e = .attr ∧ (f.hasIm = false ∨ (f.hasDisp = true ∧ (f.dispBands = false ∨ f.minGtMax = true)) ∨
+      f.attrs = false)) := by
+  obtain ⟨a, b, c, d, e', g, h', i⟩ := f
+  cases a <;> cases b <;> cases c <;> cases d <;> cases e' <;> cases g <;> cases h' <;> cases i <;>
+    simp [checkFeatures] at h <;> subst h <;> simp
+
+theorem featuresOk_left (f : DsFeatures) : featuresOk true f = (featuresOk false f && f.hasDisp) := by
+  obtain ⟨a, b, c, d, e, g, h, i⟩ := f
+  cases a <;> cases b <;> cases c <;> cases d <;> cases e <;> cases g <;> cases h <;> cases i <;>
+    simp [featuresOk]
+
+theorem featuresOk_hasIm (f : DsFeatures) (h : featuresOk false f = true) : f.hasIm = true := by
+  obtain ⟨a, b, c, d, e, g, h', i⟩ := f
+  cases a <;> simp_all [featuresOk]
+
+/-- the "same size" requirement, as the code tests it -/
+theorem sameSize_eq (l r : DsDesc) (hl : l.features.hasIm = true) (hr : r.features.hasIm = true) :
+    sameSize l r = !(((l.shapeOf "im").map lastTwo) != ((r.shapeOf "im").map lastTwo)) := by
+  simp only [DsDesc.features] at hl hr
+  unfold sameSize
+  cases ha : l.shapeOf "im" with
+  | none => simp [ha] at hl
+  | some a =>
+    cases hb : r.shapeOf "im" with
+    | none => simp [hb] at hr
+    | some b => by_cases hab : lastTwo a = lastTwo b <;> simp [hab, bne]
+
+theorem checkDatasets_ok_iff_parts (l r : DsDesc) :
+    checkDatasets l r = .ok () ↔
+      checkFeatures l.features = .ok () ∧ checkFeatures r.features = .ok () ∧ l.features.hasDisp = true ∧
+      (((l.shapeOf "im").map lastTwo) != ((r.shapeOf "im").map lastTwo)) = false := by
+  unfold checkDatasets checkDataset
+  cases h1 : checkFeatures l.features with
+  | error e => simp
+  | ok u =>
+    cases h2 : checkFeatures r.features with
+    | error e => simp
+    | ok u2 =>
+      cases hd : l.features.hasDisp
+      · simp
+      · cases hne : (((l.shapeOf "im").map lastTwo) != ((r.shapeOf "im").map lastTwo)) <;> simp
+
+/-- **dataset_accept_iff_wf**: `check_datasets` accepts a left/right pair if and only if each has
+    an image that is not entirely NaN, string band names, every other variable on the image's
+    row/column grid, the five mandatory attributes, a disparity variable (mandatory on the left)
+    with min and max bands and no pixel with min > max, and both images the same size. -/
+theorem checkDatasets_ok_iff_wellFormed (l r : DsDesc) :
+    checkDatasets l r = .ok () ↔ datasetsWellFormed l r = true := by
+  rw [checkDatasets_ok_iff_parts, checkFeatures_ok_iff, checkFeatures_ok_iff]
+  simp only [datasetsWellFormed, pairClauses, List.all_append, List.all_map, Function.comp_def]
+  have e1 : ((datasetClauses true l).all fun c => c.2) = featuresOk true l.features :=
+    datasetClauses_all true l
+  have e2 : ((datasetClauses false r).all fun c => c.2) = featuresOk false r.features :=
+    datasetClauses_all false r
+  simp only [e1, e2, featuresOk_left]
+  constructor
+  · intro ⟨h1, h2, h3, h4⟩
+    have := sameSize_eq l r (featuresOk_hasIm _ h1) (featuresOk_hasIm _ h2)
+    simp [h1, h2, h3, this, h4]
+  · intro h
+    simp only [List.all_cons, List.all_nil, Bool.and_true, Bool.and_eq_true] at h
+    obtain ⟨⟨⟨h1, h3⟩, h2⟩, h4⟩ := h
+    have := sameSize_eq l r (featuresOk_hasIm _ h1) (featuresOk_hasIm _ h2)
+    rw [this] at h4
+    refine ⟨h1, h2, h3, ?_⟩
+    simpa using h4
+
+deriving instance DecidableEq for Except
+
+/-- non-vacuity: a well-formed pair (multi-band left image with mask and disparity) is accepted … -/
+def goodLeft : DsDesc :=
+  { vars := [("im", [3, 4, 5]), ("msk", [4, 5]), ("disparity", [2, 4, 5])],
+    bandIm := some [true, true, true], bandDisp := some ["min", "max"],
+    attrs := ["no_data_img", "valid_pixels", "no_data_mask", "crs", "transform", "disparity_source"] }
+
+def goodRight : DsDesc :=
+  { vars := [("im", [3, 4, 5])], bandIm := some [true, true, true],
+    attrs := ["crs", "transform", "no_data_img", "valid_pixels", "no_data_mask"] }
+
+example : checkDatasets goodLeft goodRight = .ok () ∧ datasetsWellFormed goodLeft goodRight = true := by
+  decide
+
+/-- … and each single violation is refused, with the class the code raises -/
+example : checkDatasets { goodLeft with imAllNan := true } goodRight = .error .value := by decide
+example : checkDatasets { goodLeft with dispMinGtMax := true } goodRight = .error .attr := by decide
+example : checkDatasets { goodLeft with bandIm := some [true, false, true] } goodRight = .error .type := by decide
+example : checkDatasets { goodLeft with vars := [("im", [3, 4, 5]), ("msk", [5, 5]), ("disparity", [2, 4, 5])] }
+    goodRight = .error .value := by decide
+example : checkDatasets goodRight goodRight = .error .attr := by decide       -- no disparity on the left
+example : checkDatasets goodLeft { goodRight with vars := [("im", [3, 4, 6])] } = .error .attr := by decide
+example : failingClauses (pairClauses goodLeft { goodRight with attrs := ["crs"] }) = ["right.attrs"] := by
+  decide
+
+/-! ### 2. The schema entries of the input section, for all values -/
+
+open Pandora.Generated.Schemas
+
+/-- what "the check agrees with the documentation on this value" means -/
+def Agrees (b : Bool) : Dom → Prop
+  | .accept => b = true
+  | .reject => b = false
+  | .undecided => True
+
+def entryOf (es : List (String × Bool × Schema)) (k : String) : Schema :=
+  match es.find? (fun e => e.1 == k) with
+  | some e => e.2.2
+  | none => .any []
+
+macro "input_simp" : tactic => `(tactic|
+  simp [entryOf, List.find?, inputSchemas, Schema.accepts, Schema.acceptsAll, Schema.acceptsAny, Schema.keptByOr,
+    Schema.acceptsZip, PyType.isInstance, PyType.isExactly, Expr.holds, Expr.eval, JVal.truthy, JVal.isNull,
+    JVal.isList, JVal.isObj, fileOracle, npIsnanTruth, npArray, fIsNan, npIsscalarVal, Agrees, ofBool, pyCmp,
+    pyEq, JVal.toNum?, Num.eq,
+    nodataVerdict, fileOf])
+
+/-- left and right sides are described by the same base schema -/
+theorem base_sides_equal : inputSchemas.baseLeft = inputSchemas.baseRight := by decide
+
+/-- `img`: a string naming a file rasterio can open -/
+theorem img_entry (files : Files) (v : JVal) :
+    Schema.accepts (fileOracle files) (entryOf inputSchemas.baseLeft "img") v =
+      (match v with | .str p => (files p).isSome | _ => false) := by
+  cases v <;> input_simp
+
+/-- `mask` / `classif` / `segm`: `None`, or a string that is `"none"` or names a readable file
+    (`"none"` passes the schema and is refused later by `check_images`: rasterio cannot open it) -/
+theorem aux_entry (files : Files) (k : String) (hk : k = "mask" ∨ k = "classif" ∨ k = "segm") (v : JVal) :
+    Schema.accepts (fileOracle files) (entryOf inputSchemas.baseLeft k) v =
+      (match v with | .null => true | .str p => p == "none" || (files p).isSome | _ => false) := by
+  rcases hk with rfl | rfl | rfl <;> cases v <;> input_simp
+
+/-- `nodata`: "integer or NaN".  Full-strength statement (FALSE of the code, `nodata_nan_list_counterexample`):
+    for all `v`.  Proved: for every value that is not a list. -/
+theorem nodata_entry_partial (files : Files) (v : JVal) (hv : v.isList = false) :
+    Agrees (Schema.accepts (fileOracle files) (entryOf inputSchemas.baseLeft "nodata") v)
+      (nodataVerdict (some v)) := by
+  cases v <;> input_simp
+  · rename_i f; cases f <;> simp
+  all_goals simp [JVal.isList] at hv
+
+/-- the integer-disparity schema `[int, int]` accepts exactly the non-empty lists of ints (bools
+    included): the length is not checked (finding `disp_list_longer_than_two`) -/
+def allInts : List JVal → Bool
+  | [] => true
+  | x :: xs => (match x with | .int _ => true | .bool _ => true | _ => false) && allInts xs
+
+theorem acceptsEach_int (o : Oracle) (items : List JVal) :
+    items.all (fun x => Schema.accepts o (.type .int) x) = allInts items := by
+  induction items with
+  | nil => simp [allInts]
+  | cons x xs ih =>
+    simp only [List.all_cons, ih, allInts]
+    cases x <;> simp [Schema.accepts, PyType.isInstance]
+
+theorem accepts_int_int (o : Oracle) (items : List JVal) :
+    Schema.accepts o (.listOf [.type .int, .type .int]) (.list items) = (!items.isEmpty && allInts items) := by
+  unfold Schema.accepts
+  cases items with
+  | nil => simp
+  | cons a rest =>
+    cases rest with
+    | nil =>
+      have := acceptsEach_int o [a]
+      simp at this ⊢
+      simpa [allInts] using this
+    | cons b rest2 =>
+      cases rest2 with
+      | nil =>
+        have e1 := acceptsEach_int o [a]
+        have e2 := acceptsEach_int o [b]
+        simp [allInts] at e1 e2
+        simp [Schema.acceptsZip, allInts, e1, e2]
+      | cons c rest3 =>
+        have := acceptsEach_int o (a :: b :: c :: rest3)
+        simp only [List.all_cons] at this
+        simp [allInts] at this ⊢
+        simpa [Bool.and_assoc] using this
+
+/-- the integer-disparity entry of the source accepts every documented `[min, max]` pair of
+    integers and refuses everything that is not a list (whatever the list-length policy of the
+    source: this statement also holds after the proposed fix) -/
+theorem integer_disp_entry (files : Files) :
+    (∀ a b : Int, Schema.accepts (fileOracle files) (entryOf inputSchemas.integerLeft "disp")
+      (.list [.int a, .int b]) = true) ∧
+    (∀ v : JVal, v.isList = false →
+      Schema.accepts (fileOracle files) (entryOf inputSchemas.integerLeft "disp") v = false) := by
+  constructor
+  · intro a b
+    input_simp
+    try (unfold Schema.accepts; simp [Schema.acceptsZip, Schema.accepts, PyType.isInstance])
+  · intro v hv
+    cases v <;> input_simp
+    all_goals first
+      | (simp [JVal.isList] at hv)
+      | (unfold Schema.accepts; simp)
+
+/-- a right disparity must be `None` unless both are grids -/
+theorem none_disp_entry (files : Files) (v : JVal) :
+    Schema.accepts (fileOracle files) (entryOf inputSchemas.integerRight "disp") v = v.isNull ∧
+    Schema.accepts (fileOracle files) (entryOf inputSchemas.gridNoneRight "disp") v = v.isNull := by
+  cases v <;> input_simp
+
+/-- a disparity grid: a string that is `"none"` or names a readable file (the content is checked
+    by `check_disparities_from_input`) -/
+theorem grid_disp_entry (files : Files) (v : JVal) :
+    Schema.accepts (fileOracle files) (entryOf inputSchemas.gridNoneLeft "disp") v =
+      (match v with | .str p => p == "none" || (files p).isSome | _ => false) ∧
+    inputSchemas.gridGridLeft = inputSchemas.gridNoneLeft ∧
+    inputSchemas.gridGridRight = inputSchemas.gridNoneLeft := by
+  refine ⟨?_, by decide, by decide⟩
+  cases v <;> input_simp
+
+/-! ### 3. The custom checks -/
+
+/-- `[min, max]` with exactly two integers: accepted iff `min ≤ max` -/
+theorem checkDisparities_range (files : Files) (a b : Int) (img : JVal) :
+    checkDisparitiesFromInput files (.list [.int a, .int b]) img = .ok () ↔ a ≤ b := by
+  simp [checkDisparitiesFromInput, JVal.toNum?, Num.lt]
+
+/-- a one-element list passes the schema and dies with `IndexError` (still a refusal) -/
+theorem checkDisparities_singleton (files : Files) (a : JVal) (img : JVal) :
+    checkDisparitiesFromInput files (.list [a]) img = .error .index := by
+  simp [checkDisparitiesFromInput]
+
+/-- a grid given for a readable image: accepted iff readable, two bands, the size of the image and
+    no pixel with min > max -/
+theorem checkDisparities_grid (files : Files) (p ip : String) :
+    checkDisparitiesFromInput files (.str p) (.str ip) = .ok () ↔
+      ((files ip).isSome ∧ gridOk files (files ip) p = true) := by
+  unfold checkDisparitiesFromInput gridOk
+  cases hi : files ip with
+  | none => simp [hi]
+  | some im =>
+    cases hg : files p with
+    | none => simp [hi, hg]
+    | some g =>
+      by_cases h1 : g.count = 2 <;> by_cases h2 : g.width = im.width <;> by_cases h3 : g.height = im.height <;>
+        by_cases h4 : g.minGtMax = true <;> simp [hi, hg, h1, h2, h3, h4]
+
+/-- no disparity: nothing to check -/
+theorem checkDisparities_none (files : Files) (img : JVal) :
+    checkDisparitiesFromInput files .null img = .ok () := by
+  simp [checkDisparitiesFromInput]
+
+/-- an auxiliary image (`mask`, `classif`, `segm`) of a side whose image is `im`: accepted iff absent,
+    `None`, or readable with the size of `im` -/
+theorem checkAux_ok_iff (files : Files) (im : FileInfo) (kvs : Dict) (key : String) :
+    checkAux files im (.obj kvs) key = .ok () ↔
+      (match Dict.lookup kvs key with
+       | none => True
+       | some .null => True
+       | some (.str p) => ∃ a, files p = some a ∧ a.width = im.width ∧ a.height = im.height
+       | some _ => False) := by
+  unfold checkAux
+  cases hl : Dict.lookup kvs key with
+  | none => simp [hl]
+  | some v =>
+    cases v <;> simp [hl]
+    rename_i p
+    cases hf : files p with
+    | none => simp [hf]
+    | some a =>
+      by_cases h1 : a.width = im.width <;> by_cases h2 : a.height = im.height <;> simp [hf, h1, h2]
+
+/-! ### 4. Findings and examples -/
+
+/-- the nodata entry as written in the tree the finding was made on -/
+def bareNodataEntry : Schema := .any [.type .int, .func (.npIsnan .var)]
+
+/-- Finding `nan_in_list` (input section): `nodata: [NaN]` passes although only an integer or NaN
+    is documented -/
+theorem nodata_nan_list_counterexample :
+    Schema.accepts noOracle bareNodataEntry (.list [.float .nan]) = true ∧
+    nodataVerdict (some (.list [.float .nan])) = Dom.reject := by decide
+
+/-- Finding `disp_list_longer_than_two`: `[1, 2, 3]` passes the schema `[int, int]` and the
+    min ≤ max test (which reads the first two elements); the documentation says `[min, max]` -/
+theorem disp_list_counterexample :
+    Schema.accepts noOracle (.listOf [.type .int, .type .int]) (.list [.int 1, .int 2, .int 3]) = true ∧
+    checkDisparitiesFromInput (fun _ => none) (.list [.int 1, .int 2, .int 3]) (.str "left.tif") = .ok () ∧
+    leftDispVerdict (fun _ => none) none (some (.list [.int 1, .int 2, .int 3])) = Dom.reject := by decide
+
+/-- a small file system: two 5x6 images, a mask, a 2-band grid, a grid with min > max somewhere -/
+def fs : Files := fun p =>
+  if p = "l.tif" then some { width := 6, height := 5, count := 1 }
+  else if p = "r.tif" then some { width := 6, height := 5, count := 1 }
+  else if p = "small.tif" then some { width := 6, height := 4, count := 1 }
+  else if p = "grid.tif" then some { width := 6, height := 5, count := 2 }
+  else if p = "bad_grid.tif" then some { width := 6, height := 5, count := 2, minGtMax := true }
+  else none
+
+def userOf (left right : Dict) : Dict := [("input", .obj [("left", .obj left), ("right", .obj right)])]
+
+def okOf {α} : Except Err α → Bool
+  | .ok _ => true
+  | .error _ => false
+
+/-- documented forms are accepted and completed with the documented defaults (nodata −9999, mask /
+    classif / segm None, right disparity None; `"NaN"` becomes the float) -/
+example :
+    checkInputSection fs {} inputSchemas
+      (userOf [("img", .str "l.tif"), ("disp", .list [.int (-2), .int 2]), ("nodata", .str "NaN")]
+              [("img", .str "r.tif")]) =
+    .ok [("input", .obj [
+      ("left", .obj [("nodata", .float .nan), ("mask", .null), ("classif", .null), ("segm", .null),
+                     ("img", .str "l.tif"), ("disp", .list [.int (-2), .int 2])]),
+      ("right", .obj [("nodata", .int (-9999)), ("mask", .null), ("classif", .null), ("segm", .null),
+                      ("disp", .null), ("img", .str "r.tif")])])] := by decide
+
+example : okOf (checkInputSection fs {} inputSchemas
+    (userOf [("img", .str "l.tif"), ("disp", .str "grid.tif")] [("img", .str "r.tif"), ("disp", .str "grid.tif")])) = true := by
+  decide
+
+/-- single violations are refused, each with the exception the code raises -/
+example : checkInputSection fs {} inputSchemas
+    (userOf [("img", .str "l.tif"), ("disp", .list [.int 2, .int (-2)])] [("img", .str "r.tif")]) = .error .value := by decide
+example : checkInputSection fs {} inputSchemas
+    (userOf [("img", .str "l.tif"), ("disp", .list [.int (-2), .int 2])] [("img", .str "small.tif")]) = .error .attr := by decide
+example : checkInputSection fs {} inputSchemas
+    (userOf [("img", .str "nowhere.tif"), ("disp", .list [.int (-2), .int 2])] [("img", .str "r.tif")]) = .error .checker := by
+  decide
+example : checkInputSection fs {} inputSchemas
+    (userOf [("img", .str "l.tif"), ("disp", .str "bad_grid.tif")] [("img", .str "r.tif")]) = .error .value := by decide
+example : checkInputSection fs {} inputSchemas
+    (userOf [("img", .str "l.tif"), ("disp", .list [.int (-2), .int 2])] [("img", .str "r.tif"), ("disp", .str "grid.tif")]) =
+    .error .checker := by decide
+example : checkInputSection fs {} inputSchemas
+    (userOf [("img", .str "l.tif")] [("img", .str "r.tif")]) = .error .key := by decide
+example : checkInputSection fs {} inputSchemas
+    (userOf [("img", .str "l.tif"), ("disp", .list [.int (-2), .int 2]), ("mask", .str "small.tif")] [("img", .str "r.tif")]) =
+    .error .attr := by decide
+example : okOf (checkInputSection fs {} inputSchemas
+    (userOf [("img", .str "l.tif"), ("disp", .list [.int 5])] [("img", .str "r.tif")])) = false := by decide
+
+end Pandora.C17
